@@ -183,6 +183,25 @@ func init() {
 					Fields: []string{hx(p.Src), mode, strings.Join(fs, ","), searched}, Meta: map[string]string{}})
 			}
 		}
+		// replacements whose length differences CANCEL: the output is as long as the input although matches grow and shrink
+		// (and variants where they almost cancel), every mode, with and without a stale .vored
+		for i, ct := range [][2]string{
+			{"replace all at least 1 'a' with 'xx'", "a bbb aaa"}, {"replace all at least 1 'a' with 'xx'", "aaa a"},
+			{"replace all (at least 1 digit) = n with '<' '>'", "1 234 5 67"}, {"replace all letter or (digit digit digit) with 'ZZ'", "a123b456"},
+			{"replace all 'ab' or 'c' with matchNumber matchNumber", "ab c ab c c"}, {"replace all at least 1 'a' with 'xx'", "a bbb aaaa"},
+			{"replace all whole line with 'LL'", "a\nbbb\ncc"}, {"replace all (maybe 'x') = o 'y' with o o 'z'", "xy y xy"}} {
+			for _, stale := range []bool{false, true} {
+				fs := []string{"f.txt=" + hx(ct[1]), "other.txt=" + hx("bystander")}
+				if stale {
+					fs = append(fs, "f.txt.vored="+hx("STALE STALE STALE"))
+				}
+				st.Features["length-differences-cancel"]++
+				for _, mode := range []string{"NEW", "NOTHING", "OVERWRITE"} {
+					cases = append(cases, Case{ID: fmt.Sprintf("lc%d.%v.%s", i, stale, mode), Op: "files",
+						Fields: []string{hx(ct[0]), mode, strings.Join(fs, ","), ""}, Meta: map[string]string{}})
+				}
+			}
+		}
 		// large files: unmatched stretches longer than the 4096-byte read window, sizes around its multiples
 		nbig := sizes(tier, 24, 300)
 		for i := 0; i < nbig; i++ {
